@@ -45,3 +45,37 @@ package grpc
 //@   ensures[rollup-ProofLeafLer] (ibe != nil && typeIs(ibe.ClaimData, *types.ClaimFromRollup)) ==> cast(result0.Claim, *v1types.ImportedBridgeExit_Rollup).Rollup.ProofLeafLer != nil && seq(cast(result0.Claim, *v1types.ImportedBridgeExit_Rollup).Rollup.ProofLeafLer.Root.Value) == hb(cast(ibe.ClaimData, *types.ClaimFromRollup).ProofLeafLER.Root) && len(cast(result0.Claim, *v1types.ImportedBridgeExit_Rollup).Rollup.ProofLeafLer.Siblings) == 32 && forall(k, 0, len(cast(result0.Claim, *v1types.ImportedBridgeExit_Rollup).Rollup.ProofLeafLer.Siblings), seq(cast(result0.Claim, *v1types.ImportedBridgeExit_Rollup).Rollup.ProofLeafLer.Siblings[k].Value) == hb(cast(ibe.ClaimData, *types.ClaimFromRollup).ProofLeafLER.Proof[k]))
 //@   ensures[rollup-ProofLerRer] (ibe != nil && typeIs(ibe.ClaimData, *types.ClaimFromRollup)) ==> cast(result0.Claim, *v1types.ImportedBridgeExit_Rollup).Rollup.ProofLerRer != nil && seq(cast(result0.Claim, *v1types.ImportedBridgeExit_Rollup).Rollup.ProofLerRer.Root.Value) == hb(cast(ibe.ClaimData, *types.ClaimFromRollup).ProofLERToRER.Root) && len(cast(result0.Claim, *v1types.ImportedBridgeExit_Rollup).Rollup.ProofLerRer.Siblings) == 32 && forall(k, 0, len(cast(result0.Claim, *v1types.ImportedBridgeExit_Rollup).Rollup.ProofLerRer.Siblings), seq(cast(result0.Claim, *v1types.ImportedBridgeExit_Rollup).Rollup.ProofLerRer.Siblings[k].Value) == hb(cast(ibe.ClaimData, *types.ClaimFromRollup).ProofLERToRER.Proof[k]))
 //@   ensures[rollup-ProofGerL1Root] (ibe != nil && typeIs(ibe.ClaimData, *types.ClaimFromRollup)) ==> cast(result0.Claim, *v1types.ImportedBridgeExit_Rollup).Rollup.ProofGerL1Root != nil && seq(cast(result0.Claim, *v1types.ImportedBridgeExit_Rollup).Rollup.ProofGerL1Root.Root.Value) == hb(cast(ibe.ClaimData, *types.ClaimFromRollup).ProofGERToL1Root.Root) && len(cast(result0.Claim, *v1types.ImportedBridgeExit_Rollup).Rollup.ProofGerL1Root.Siblings) == 32 && forall(k, 0, len(cast(result0.Claim, *v1types.ImportedBridgeExit_Rollup).Rollup.ProofGerL1Root.Siblings), seq(cast(result0.Claim, *v1types.ImportedBridgeExit_Rollup).Rollup.ProofGerL1Root.Siblings[k].Value) == hb(cast(ibe.ClaimData, *types.ClaimFromRollup).ProofGERToL1Root.Proof[k]))
+
+// ---- the message handed to the Agglayer (C10, C02): wireCert observes the certificate inside the submitted request
+//@ ghost var wireCert *v1nodetypes.Certificate
+//@ ghost var wireCalls int
+//@ interface buf.build/gen/go/agglayer/agglayer/grpc/go/agglayer/node/v1/nodev1grpc.CertificateSubmissionServiceClient.SubmitCertificate (self, ctx, in, opts)
+//@   definitional
+//@   requires in != nil
+//@   modifies wireCert, wireCalls
+//@   ensures wireCalls == old(wireCalls) + 1
+//@   ensures wireCert == in.Certificate
+//@   ensures result1 == nil ==> result0 != nil && result0.CertificateId != nil && result0.CertificateId.Value != nil
+
+//@ func convertAggchainData
+//@   props C10
+//@   modifies nothing
+//@   ensures[undefined-refused] aggchainData == nil ==> result1 != nil && result0 == nil
+//@   ensures[signature-unchanged] typeIs(aggchainData, *types.AggchainDataSignature) ==> result1 == nil && result0 != nil && typeIs(result0.Data, *v1types.AggchainData_Signature) && cast(result0.Data, *v1types.AggchainData_Signature).Signature != nil && cast(result0.Data, *v1types.AggchainData_Signature).Signature.Value == cast(aggchainData, *types.AggchainDataSignature).Signature
+
+//@ func (a *AgglayerGRPCClient) SendCertificate
+//@   props C10 C02
+//@   requires a != nil && a.cfg != nil && a.submissionService != nil && certificate != nil
+//@   requires forall(k, 0, len(certificate.BridgeExits), certificate.BridgeExits[k] != nil ==> certificate.BridgeExits[k].TokenInfo != nil)
+//@   requires forall(k, 0, len(certificate.ImportedBridgeExits), certificate.ImportedBridgeExits[k] != nil && certificate.ImportedBridgeExits[k].GlobalIndex != nil && (certificate.ImportedBridgeExits[k].BridgeExit != nil ==> certificate.ImportedBridgeExits[k].BridgeExit.TokenInfo != nil))
+//@   requires forall(k, 0, len(certificate.ImportedBridgeExits), typeIs(certificate.ImportedBridgeExits[k].ClaimData, *types.ClaimFromMainnnet) ==> cast(certificate.ImportedBridgeExits[k].ClaimData, *types.ClaimFromMainnnet).ProofLeafMER != nil && cast(certificate.ImportedBridgeExits[k].ClaimData, *types.ClaimFromMainnnet).ProofGERToL1Root != nil && cast(certificate.ImportedBridgeExits[k].ClaimData, *types.ClaimFromMainnnet).L1Leaf != nil && cast(certificate.ImportedBridgeExits[k].ClaimData, *types.ClaimFromMainnnet).L1Leaf.Inner != nil)
+//@   requires forall(k, 0, len(certificate.ImportedBridgeExits), typeIs(certificate.ImportedBridgeExits[k].ClaimData, *types.ClaimFromRollup) ==> cast(certificate.ImportedBridgeExits[k].ClaimData, *types.ClaimFromRollup).ProofLeafLER != nil && cast(certificate.ImportedBridgeExits[k].ClaimData, *types.ClaimFromRollup).ProofLERToRER != nil && cast(certificate.ImportedBridgeExits[k].ClaimData, *types.ClaimFromRollup).ProofGERToL1Root != nil && cast(certificate.ImportedBridgeExits[k].ClaimData, *types.ClaimFromRollup).L1Leaf != nil && cast(certificate.ImportedBridgeExits[k].ClaimData, *types.ClaimFromRollup).L1Leaf.Inner != nil)
+//@   modifies wireCert, wireCalls
+//@   ensures[at-most-one-submission] wireCalls == old(wireCalls) || wireCalls == old(wireCalls) + 1
+//@   ensures[success-means-submitted] result1 == nil ==> wireCalls == old(wireCalls) + 1
+//@   ensures[scalars-unchanged] wireCalls == old(wireCalls) + 1 ==> wireCert != nil && wireCert.NetworkId == certificate.NetworkID && wireCert.Height == certificate.Height && wireCert.CustomChainData == certificate.CustomChainData
+//@   ensures[leaf-count-unchanged] wireCalls == old(wireCalls) + 1 ==> wireCert.L1InfoTreeLeafCount != nil
+//@   ensures[roots-unchanged] wireCalls == old(wireCalls) + 1 ==> seq(wireCert.PrevLocalExitRoot.Value) == hb(certificate.PrevLocalExitRoot) && seq(wireCert.NewLocalExitRoot.Value) == hb(certificate.NewLocalExitRoot) && seq(wireCert.Metadata.Value) == hb(certificate.Metadata)
+//@   ensures[one-message-per-exit] wireCalls == old(wireCalls) + 1 ==> len(wireCert.BridgeExits) == len(certificate.BridgeExits) && len(wireCert.ImportedBridgeExits) == len(certificate.ImportedBridgeExits)
+//@   loop 0 invariant 0 <= rangeindex + 1 && rangeindex + 1 <= len(certificate.BridgeExits) && len(protoCert.BridgeExits) == rangeindex + 1
+//@   loop 1 invariant 0 <= rangeindex + 1 && rangeindex + 1 <= len(certificate.ImportedBridgeExits) && len(protoCert.ImportedBridgeExits) == rangeindex + 1
